@@ -27,33 +27,33 @@ type wSnap struct {
 	Data  uint64   `json:"d"`
 }
 type wCall struct {
-	K     string   `json:"k"` // save csnap reopen delgroup first last term entries snap init
+	K     string    `json:"k"` // save csnap reopen delgroup first last term entries snap init
 	Hard  [3]uint64 `json:"hard,omitempty"`
-	Ents  []wEntry `json:"ents,omitempty"`
-	Snap  *wSnap   `json:"snap,omitempty"`
-	I     uint64   `json:"i,omitempty"`
-	NilCS bool     `json:"nilcs,omitempty"`
-	Conf  []uint64 `json:"conf,omitempty"`
-	Data  uint64   `json:"data,omitempty"`
-	Lo    uint64   `json:"lo,omitempty"`
-	Hi    uint64   `json:"hi,omitempty"`
-	Max   uint64   `json:"max,omitempty"`
-	Legal bool     `json:"legal"`
+	Ents  []wEntry  `json:"ents,omitempty"`
+	Snap  *wSnap    `json:"snap,omitempty"`
+	I     uint64    `json:"i,omitempty"`
+	NilCS bool      `json:"nilcs,omitempty"`
+	Conf  []uint64  `json:"conf,omitempty"`
+	Data  uint64    `json:"data,omitempty"`
+	Lo    uint64    `json:"lo,omitempty"`
+	Hi    uint64    `json:"hi,omitempty"`
+	Max   uint64    `json:"max,omitempty"`
+	Legal bool      `json:"legal"`
 }
 type wObs struct {
-	Kind string   `json:"kind"` // none err num ents snap init panic
-	Err  string   `json:"err,omitempty"`
-	Num  uint64   `json:"num,omitempty"`
-	Ents []wEntry `json:"ents,omitempty"`
-	Snap *wSnap   `json:"snap,omitempty"`
+	Kind string    `json:"kind"` // none err num ents snap init panic
+	Err  string    `json:"err,omitempty"`
+	Num  uint64    `json:"num,omitempty"`
+	Ents []wEntry  `json:"ents,omitempty"`
+	Snap *wSnap    `json:"snap,omitempty"`
 	Hard [3]uint64 `json:"hard,omitempty"`
-	Conf []uint64 `json:"conf,omitempty"`
+	Conf []uint64  `json:"conf,omitempty"`
 }
 type wCase struct {
-	Group string  `json:"group"`
-	Calls []wCall `json:"calls"`
-	Obs   []wObs  `json:"obs"`     // badgerWAL
-	Ref   []wObs  `json:"ref"`     // MemoryStorage
+	Group string            `json:"group"`
+	Calls []wCall           `json:"calls"`
+	Obs   []wObs            `json:"obs"` // badgerWAL
+	Ref   []wObs            `json:"ref"` // MemoryStorage
 	Sizes map[string]uint64 `json:"-"`
 }
 
@@ -75,8 +75,12 @@ func digest(b []byte) uint64 {
 	}
 	return uint64(b[0])
 }
-func toPbEntry(e wEntry) raftpb.Entry { return raftpb.Entry{Term: e.Term, Index: e.Index, Data: payload(e.Data)} }
-func fromPbEntry(e raftpb.Entry) wEntry { return wEntry{Term: e.Term, Index: e.Index, Data: digest(e.Data)} }
+func toPbEntry(e wEntry) raftpb.Entry {
+	return raftpb.Entry{Term: e.Term, Index: e.Index, Data: payload(e.Data)}
+}
+func fromPbEntry(e raftpb.Entry) wEntry {
+	return wEntry{Term: e.Term, Index: e.Index, Data: digest(e.Data)}
+}
 func toPbSnap(s *wSnap) raftpb.Snapshot {
 	if s == nil {
 		return raftpb.Snapshot{}
